@@ -94,6 +94,7 @@ def check(run, replay=None):
         scs = odecore.replay_scenarios(replay)
     else:
         run.mc("OdeSystemMC", "OdeSystem_events_q")
+        run.mc("OdeSystemMC", "OdeSystem_indefinite")      # targets +-Infinity: a call towards them returns only because a terminal event stopped it
         if run.tier == "thorough":
             run.mc("OdeSystemMC", "OdeSystem_events")
             for dev, inv in (("KeepRolledBackPiece", "PiecesAreSteps"), ("FrontInsert", "PiecesAreSteps")):
